@@ -99,7 +99,7 @@ def draw_request(dec, prop, t, ctx):
     if prop == 'C09':
         return families.draw_c09(dec, near=t.date())
     if prop == 'C06':
-        return families.draw_c06(dec)
+        return families.draw_c06(dec, near=t.date())
     if prop == 'C07':
         return families.draw_c07(dec)
     if prop == 'C11':
@@ -130,6 +130,7 @@ def gen_timeline(prop, run_seed, tier, ctx):
     # swarm: per-run fault mix
     p_implicit = [0.0, 0.3, 0.5, 0.8][dec.choice('p-implicit', 4)]
     enabled = {k: dec.choice('en-' + k, 3) > 0 for k in ('step', 'torn', 'backstep', 'aligned', 'stale', 'magnet')}
+    twins = dec.choice('en-twins', 3) > 0
     events = []
     for k in range(n_events):
         # ---- advance the clock
@@ -165,7 +166,11 @@ def gen_timeline(prop, run_seed, tier, ctx):
             fault = 'aligned'
         req = draw_request(dec, prop, t, ctx)
         mode = 'implicit' if dec.chance('mode', p_implicit) else 'explicit'
-        ev = {'k': k, 't': iso(t), 'adv': adv, 'mode': mode, 'req': req, 'fault': fault}
+        if twins and req['culture'] == 'en-us' and req['family'] != 'spec' and dec.chance('ctx-twin', 0.25):
+            creq = families.context_twin(dec, req)
+            events.append({'k': len(events), 't': iso(t), 'adv': 'none', 'mode': 'explicit', 'req': creq, 'fault': None,
+                           'clock': iso(clamp(t + timedelta(days=400, microseconds=5))), 'dup': False})
+        ev = {'k': len(events), 't': iso(t), 'adv': adv, 'mode': mode, 'req': req, 'fault': fault}
         if mode == 'implicit':
             f = dec.choice('read-fault', 10)
             if enabled['torn'] and f < 2:
@@ -205,6 +210,8 @@ def _parse(req, reference):
 
 def judge_at(prop, req, ents, instants):
     """-> failure dict or None. `instants`: candidate reference instants (one for frozen/explicit calls)."""
+    if req.get('context') and prop != 'C11':
+        return None
     if prop == 'C11':
         fails = []
         for e in ents:
@@ -274,8 +281,10 @@ def execute_event(prop, ev, kf, stats):
     out['n_entities'] = len(ents)
     if any(e[4] is None for e in ents):
         stats['unresolved-entities'] = stats.get('unresolved-entities', 0) + 1
+    if req.get('context'):
+        stats['context-twins'] = stats.get('context-twins', 0) + 1
     if fail is not None:
-        if not req.get('deciding', True):
+        if not req.get('deciding', True) and not (prop == 'C11' and req.get('context')):
             out['informational'] = fail['kind']
         else:
             k = known.match(kf, prop, req, instants, fail)
